@@ -135,3 +135,170 @@ def c_number_to_string(h):
             h.check("C10.number_to_string.four_significant_digits", r.spec == ".4g", "format spec %r" % (r.spec,))
             # the number formatted is the argument itself: nothing is done to it before (rounding to decimals, scaling, abs)
             h.ensure("C10.number_to_string.formats_the_number_itself", to_real(r.expr) == to_real(x))
+
+
+# ------------------------------------------------------------------------------------------------
+# the list printer's loop and the human-readable dictionaries (what from_strings / the file writer are given)
+# ------------------------------------------------------------------------------------------------
+PICM = "pacti.contracts.polyhedral_iocontract"
+
+
+def _printer_stub(h, log):
+    """Call-site contract of polyhedral_term_list_to_strings (proved above): one string for the first term, or for the first
+    term and ONE later term, which is removed; the rest keeps its order; the argument is not modified."""
+
+    def f(I, args, kwargs):
+        lst = args[0]
+        items = list(lst.items)
+        k = len(log)
+        if not items:
+            log.append((lst, [], "S%d" % k, []))
+            return ("S%d" % k, PList([], h.ctx))
+        fold = 0
+        if len(items) >= 2:
+            fold = h.ctx.choose(len(items), "printer#%d.folds_with" % k)  # 0: no partner, j: the j-th later term
+        consumed = [items[0]] + ([items[fold]] if fold else [])
+        rest = [t for t in items[1:] if not (fold and t is items[fold])]
+        log.append((lst, items, "S%d" % k, consumed))
+        return ("S%d" % k, PList(rest, h.ctx))
+
+    return f
+
+
+def _to_str_list(n):
+    def c(h):
+        s = S(h)
+        terms = [s.term("t%d" % i, NAMES, allow_empty=False) for i in range(n)]
+        tl = s.termlist(terms)
+        log = []
+        h.I.stubs[SER + ":polyhedral_term_list_to_strings"] = _printer_stub(h, log)
+        out = h.call(h.method(tl, "to_str_list"), [])
+        h.check("C14.to_str_list.no_exception", out.kind == "return", "raised %s at %s" % (out.exc_name, out.where))
+        if out.kind != "return":
+            return
+        h.cover("return")
+        r = out.value
+        ok = isinstance(r, PList) and all(isinstance(x, str) for x in r.items)
+        h.check("C10.to_str_list.returns_list_of_strings", ok, "%r" % (r,))
+        if not ok:
+            return
+        # every constraint is printed exactly once: the printer is first given all the terms in order, then what it left, until
+        # nothing is left; the strings come back in that order
+        h.check("C10.to_str_list.strings_in_printing_order", r.items == [l[2] for l in log], "%r" % (r.items,))
+        h.check("C10.to_str_list.first_call_gets_all_terms_in_order", (not log and n == 0) or (bool(log) and len(log[0][1]) == n and all(x is y for x, y in zip(log[0][1], terms))), "first call on another list")
+        consumed = [t for l in log for t in l[3]]
+        h.check("C10.to_str_list.every_term_printed_exactly_once", len(consumed) == n and all(sum(1 for c_ in consumed if c_ is t) == 1 for t in terms), "%d terms printed for %d" % (len(consumed), n))
+        for i in range(1, len(log)):
+            prev_rest = [t for t in log[i - 1][1] if not any(t is c_ for c_ in log[i - 1][3])]
+            h.check("C10.to_str_list.call_%d_gets_what_the_previous_left" % i, len(prev_rest) == len(log[i][1]) and all(x is y for x, y in zip(prev_rest, log[i][1])), "printer called on something else than the rest")
+        h.check("C10.to_str_list.no_call_on_an_empty_list", all(l[1] for l in log), "printer asked to print nothing (an empty string would be emitted)")
+        h.check("C13.to_str_list.terms_unchanged", tl.attrs["terms"].items == terms, "list modified")
+        h.frame_ok(out, "C13.frame")
+
+    return c
+
+
+for _n in (0, 1, 2, 3):
+    contract(
+        "PolyhedralTermList.to_str_list[%d terms]" % _n,
+        ["C10", "C13", "C14"],
+        [POLY + ":PolyhedralTermList.to_str_list"],
+        "S",
+        bound="%d terms; the printer by its call-site contract (every choice of folded partner)" % _n,
+        assumes=["contract of polyhedral_term_list_to_strings (proved: C10.printer.* clauses)"],
+        covers=["return"],
+    )(_to_str_list(_n))
+
+
+def _dict_of(h, r, keys):
+    from pyvc.core import PDict
+
+    if not isinstance(r, PDict):
+        return None
+    return r if set(r.keys) == {("py", k) for k in keys} else None
+
+
+@contract("PolyhedralIoContract.to_dict", ["C10", "C13", "C14"], [PICM + ":PolyhedralIoContract.to_dict", "pacti.iocontract.iocontract:Var.__str__", "pacti.iocontract.iocontract:Var.name"], "S", bound="interfaces of 0-2 inputs and 1-2 outputs; the two constraint lists print through to_str_list (its contract)", assumes=["contract of PolyhedralTermList.to_str_list (proved above)"], covers=["return"])
+def c_to_dict(h):
+    s = S(h)
+    cls = h.I.load_module(PICM).ns["PolyhedralIoContract"]
+    ins = [[], ["x"], ["x", "y"], ["y", "x"]][h.ctx.choose(4, "ins")]
+    outs = [["z"], ["w", "z"], ["z", "w"]][h.ctx.choose(3, "outs")]
+    c = Obj(cls, h.ctx)
+    c.attrs["inputvars"] = PList([s.var(v) for v in ins], h.ctx)
+    c.attrs["outputvars"] = PList([s.var(v) for v in outs], h.ctx)
+    c.attrs["a"] = s.termlist([s.term("a0", ["x"], allow_empty=False)])
+    c.attrs["g"] = s.termlist([s.term("g0", ["x", "z"], allow_empty=False)])
+    made = {}
+
+    def to_str_list(I, args, kwargs):
+        me = args[0]
+        made.setdefault(id(me), PList(["<%s>" % ("A" if me is c.attrs["a"] else "G" if me is c.attrs["g"] else "?")], h.ctx))
+        return made[id(me)]
+
+    h.I.stubs[POLY + ":PolyhedralTermList.to_str_list"] = to_str_list
+    out = h.call(h.method(c, "to_dict"), [])
+    h.check("C14.to_dict.no_exception", out.kind == "return", "raised %s at %s" % (out.exc_name, out.where))
+    if out.kind != "return":
+        return
+    h.cover("return")
+    d = _dict_of(h, out.value, ["input_vars", "output_vars", "assumptions", "guarantees"])
+    h.check("C10.to_dict.has_exactly_the_four_fields", d is not None, "%r" % (out.value,))
+    if d is None:
+        return
+    lst = lambda k: d.vals[("py", k)].items if isinstance(d.vals[("py", k)], PList) else None
+    h.check("C10.to_dict.input_names_in_order", lst("input_vars") == ins, "%r" % (lst("input_vars"),))
+    h.check("C10.to_dict.output_names_in_order", lst("output_vars") == outs, "%r" % (lst("output_vars"),))
+    h.check("C10.to_dict.assumptions_are_the_printed_assumptions", lst("assumptions") == ["<A>"], "%r" % (lst("assumptions"),))
+    h.check("C10.to_dict.guarantees_are_the_printed_guarantees", lst("guarantees") == ["<G>"], "%r" % (lst("guarantees"),))
+    h.check("C13.to_dict.fresh_interface_lists", d.vals[("py", "input_vars")] is not c.attrs["inputvars"] and d.vals[("py", "output_vars")] is not c.attrs["outputvars"], "the dictionary shares the contract's lists")
+    h.frame_ok(out, "C13.frame")
+
+
+@contract("PolyhedralIoContractCompound.to_dict", ["C10", "C13", "C14"], [PICM + ":PolyhedralIoContractCompound.to_dict", "pacti.iocontract.iocontract:Var.__str__", "pacti.iocontract.iocontract:Var.name"], "S", bound="1-2 assumption alternatives, 1-2 guarantee alternatives; each prints through to_str_list (its contract)", assumes=["contract of PolyhedralTermList.to_str_list (proved above)"], covers=["return"])
+def c_compound_to_dict(h):
+    s = S(h)
+    m = h.I.load_module(PICM)
+    cls, nested = m.ns["PolyhedralIoContractCompound"], m.ns["NestedPolyhedra"]
+    na, ng = 1 + h.ctx.choose(2, "na"), 1 + h.ctx.choose(2, "ng")
+    ins = [["x"], ["y", "x"]][h.ctx.choose(2, "ins")]
+    outs = [["z"], ["z", "w"]][h.ctx.choose(2, "outs")]
+
+    def nest(name, n, names):
+        o = Obj(nested, h.ctx)
+        o.attrs["nested_termlist"] = PList([s.termlist([s.term("%s%d" % (name, i), names, allow_empty=False)]) for i in range(n)], h.ctx)
+        return o
+
+    c = Obj(cls, h.ctx)
+    c.attrs["inputvars"] = PList([s.var(v) for v in ins], h.ctx)
+    c.attrs["outputvars"] = PList([s.var(v) for v in outs], h.ctx)
+    c.attrs["a"], c.attrs["g"] = nest("a", na, ["x"]), nest("g", ng, ["x", "z"])
+    label = {}
+    for i, t in enumerate(c.attrs["a"].attrs["nested_termlist"].items):
+        label[id(t)] = "<A%d>" % i
+    for i, t in enumerate(c.attrs["g"].attrs["nested_termlist"].items):
+        label[id(t)] = "<G%d>" % i
+    made = {}
+
+    def to_str_list(I, args, kwargs):
+        me = args[0]
+        made.setdefault(id(me), PList([label.get(id(me), "?")], h.ctx))
+        return made[id(me)]
+
+    h.I.stubs[POLY + ":PolyhedralTermList.to_str_list"] = to_str_list
+    out = h.call(h.method(c, "to_dict"), [])
+    h.check("C14.compound_to_dict.no_exception", out.kind == "return", "raised %s at %s" % (out.exc_name, out.where))
+    if out.kind != "return":
+        return
+    h.cover("return")
+    d = _dict_of(h, out.value, ["input_vars", "output_vars", "assumptions", "guarantees"])
+    h.check("C10.compound_to_dict.has_exactly_the_four_fields", d is not None, "%r" % (out.value,))
+    if d is None:
+        return
+    lst = lambda k: d.vals[("py", k)].items if isinstance(d.vals[("py", k)], PList) else None
+    nestl = lambda k: [x.items if isinstance(x, PList) else x for x in (lst(k) or [])]
+    h.check("C10.compound_to_dict.input_names_in_order", lst("input_vars") == ins, "%r" % (lst("input_vars"),))
+    h.check("C10.compound_to_dict.output_names_in_order", lst("output_vars") == outs, "%r" % (lst("output_vars"),))
+    h.check("C10.compound_to_dict.one_printed_list_per_assumption_alternative_in_order", nestl("assumptions") == [["<A%d>" % i] for i in range(na)], "%r" % (nestl("assumptions"),))
+    h.check("C10.compound_to_dict.one_printed_list_per_guarantee_alternative_in_order", nestl("guarantees") == [["<G%d>" % i] for i in range(ng)], "%r" % (nestl("guarantees"),))
+    h.frame_ok(out, "C13.frame")
